@@ -56,6 +56,15 @@ class C15(PureCheck):
             for sep in (".", "a.", " +", ".+", "a+"):
                 for regex in ((0, 1) if k % 2 else (1, 0)):
                     yield {"op": "split", "f": f, "sep": enc.enc_text(sep), "regex": regex}
+        # padding counts characters, not columns: texts with double-width and combining characters
+        for k, t in enumerate(([65317], [97, 65317, 98], [26085, 26085], [97, 769], [128512, 32], [65317, 10, 97])):
+            for a in ATTS:
+                f = [[list(t), list(a)]] if k % 2 else [[list(t[:1]), list(a)], [list(t[1:]), list(ATTS[0])]]
+                n = len(t)
+                for side in ("ljust", "rjust"):
+                    for w in (0, n, n + 1, n + 2, n + 5):
+                        yield {"op": "just", "f": f, "side": side, "w": w, "fill": 0}
+                        yield {"op": "just", "f": f, "side": side, "w": w, "fill": 42}
         for f in pool:
             n = fmtlib.vlen(f)
             for sep in SEPS:
